@@ -55,12 +55,13 @@ PROPS = {
     ),
     'C18': dict(
         title='Growing one structure never corrupts another',
-        kani=['c18_pager', 'c18_idmap'],
+        kani=['c18_pager', 'c18_idmap', 'c18_blob'],
         verus=['c18_pager'],
         pairs={},
         native={'apply_create_node_multi_label': ['c18_node_table_spill'], 'write_i2e_record': ['c18_node_table_spill'],
-                'make_room_for_next_record': ['c18_node_table_spill']},
-        native_all=['c18_node_table_spill'],
+                'make_room_for_next_record': ['c18_node_table_spill'], 'write_direct': ['c18_ownership_mix_quick'],
+                'allocate_page': ['c18_ownership_mix_quick'], 'free_page': ['c18_ownership_mix_quick'], 'write_blob_pages': ['c18_ownership_mix_quick']},
+        native_all=['c18_node_table_spill', 'c18_ownership_mix_quick'],
         level_text='Proof of a frame condition, for every page id, every bitmap state and every node id, over a trusted positional-file model: Verus proves from the real bodies that the allocator (Bitmap::{get_bit,set_bit}, Pager::{allocate_page, allocate_run, ensure_allocated, free_page, write_page, read_page, flush_meta_and_bitmap, set_*}) keeps its representation invariant, hands out only pages that were free, frees exactly the page asked for, and changes no byte of any other allocated data page; and that the structures checked against those contracts (write_blob_pages of the segment store, BTree::create, the node table: i2e_location, write_i2e_record, IdMap::make_room_for_next_record incl. the relocation loops, IdMap::apply_create_node_multi_label) change no byte of any page that was allocated before the call and is not their own (frame_ok). Kani proves the bit-level laws of the bitmap, the meta-page round trip and node-table addressing (all u64 ids, no overlap) on the compiled crate.',
         level_note="Not decided: the write loops of B-tree splits (BTree::insert / insert_into_parent / build_from_sorted_entries), BlobStore::write_direct (iterator adapters: chunks/rev), IndexCatalog::{open_or_create,get_or_create,flush}, HNSW stores, statistics and compaction orchestration: they obey the discipline only in so far as every page they obtain comes from Pager::allocate_page, whose contract is proved. Bitmap::find_free_in_range is `(start..end).find(closure)`, which Verus cannot ingest: its contract is assumed in the Verus unit on the strength of std's Iterator::find semantics and is checked by Kani on the compiled code only for windows of <= 8 (quick) / <= 16 (thorough) ids near id 0 (labelled bounded, not counted). Trusted: positional file model (pread/pwrite loops of pager.rs as v_read_exact_at / v_write_all_at; set_len extends with zeros; fsync not modelled), `&File` writes modelled as `&mut File` (interior mutability of the OS file), 64-bit usize, IdMap invariant `no start page => no records` (established by load on a consistent meta page, preserved by the proved function). Verus gives no counterexample; on a failed node-table obligation the driver runs the native scenario c18_node_table_spill (Pager/IdMap/BlobStore public API) against the tree under test.",
         technique='contract-based deductive verification (Verus frame contracts on mechanically extracted allocator and client code over an abstract page-store view; Kani full-domain harnesses for bit-level and addressing laws)', design_ref='DESIGN.md §4 C18',
@@ -72,7 +73,7 @@ PROPS = {
         pairs={},
         native={'mark_csr_segment_pages': ['c28_vacuum_after_compact'], 'encode_meta': ['c28_vacuum_after_compact'],
                 'mark_reachable_pages': ['c28_vacuum_after_compact'], 'mark_blob_chain': ['c28_vacuum_after_compact'],
-                'read_direct': ['c28_vacuum_after_compact']},
+                'read_direct': ['c28_vacuum_after_compact'], 'write_vacuum_copy': ['c28_vacuum_after_compact']},
         native_all=['c28_vacuum_after_compact'],
         level_text='Proof, reachability scope, for every list length and every chain length, over the page-store view of unit c18_pager: Verus proves from the real bodies that csr::encode_meta writes exactly the segment-meta format spec (magic, ids, lengths, four page counts at 64..80, four page lists from 80), that vacuum::mark_csr_segment_pages on any page holding that format marks every non-zero page id of all four lists and fails only on I/O or an invalid layout, and - as a lemma over the two contracts - that the marker covers everything the writer recorded; that vacuum::mark_blob_chain marks every page of a blob chain up to its terminator and BlobStore::read_direct returns a function of exactly those pages, with a lemma that a copy agreeing on those pages yields the same chain and bytes; and that vacuum::mark_reachable_pages keeps the two header pages, every page of the node table (page of record id for all id < len), the catalog page, the statistics chain and, for every segment of the manifest, its meta page and all four page lists.',
         level_note='Not decided: B-tree page marking (BTree::mark_reachable_pages over index, HNSW and property trees - stands in mark_reachable_pages as two stubs that only say the set never shrinks), Pager::write_vacuum_copy (iterates a BTreeSet and writes a second file: bitmap/next_page_id computation and page copy are not under contract), scan_wal_roots (which manifest/roots are chosen), the rename dance of vacuum_in_place and post-vacuum usability; those are exercised only by the native scenario c28_vacuum_after_compact, which is a witness generator, not a proof. Termination of the two chain walks is not proved (cycles are detected at run time by the marker, not by the reader). Trusted: Pager::read_page contract (proved in unit c18_pager), std::io::Cursor<&mut [u8]>::write_all as a sequential writer, BTreeSet insert, u64::div_ceil, page lists shorter than 2^28 entries (keeps `needed` from overflowing). A `continue` in the segment loop is rewritten mechanically into a guarded block (Verus for-loops do not support continue).',
